@@ -359,7 +359,8 @@ pub(crate) fn validate_directives<'dir>(
                     );
                 }
             }
-        } else {
+        } else if schema.is_some() {
+            // Without a schema, any directive may turn out to be defined
             diagnostics.push(
                 loc,
                 DiagnosticData::UndefinedDirective { name: name.clone() },
